@@ -92,6 +92,12 @@ class Cluster(Driver):
         if cfg.get('warm'):
             # start from a non-initial state: a canonical fair run brings the cluster to OPERATION first
             w.round_robin(cfg['warm'], settle=None if cfg.get('slow_start') else self.settle)
+        if cfg.get('prejoin'):
+            # the late instances have joined by a canonical fair run: what they reported is newer than what the
+            # others reported at the cold start
+            for i in late:
+                w.apply(('restart', i))
+            w.round_robin(cfg['prejoin'], settle=None if cfg.get('slow_start') else self.settle)
         w.budget['Tmax'] = w.round + cfg['T']
         # election history for the reference rule (C01 b): Master agreed before the disturbances, fault events
         hist = ElectionHistory()
